@@ -40,6 +40,21 @@ impl<'a, 'b> GeneratorState<'a> {
         restore
     }
 
+    // The post-increments of an alternative of ?: take place on its own path
+    fn settle_alternative(&mut self, nb_deferred: usize) -> Result<bool, Error> {
+        if self.deferred_plusplus.len() > nb_deferred {
+            let pending: Vec<_> = self.deferred_plusplus.drain(nb_deferred..).collect();
+            // (the temporary location is only used while the variable is updated)
+            let tmp_in_use = self.tmp_in_use;
+            for d in pending {
+                self.generate_plusplus(&d.0, d.1, d.2)?;
+            }
+            self.tmp_in_use = tmp_in_use;
+            return Ok(true);
+        }
+        Ok(false)
+    }
+
     pub(crate) fn generate_ternary(
         &mut self,
         condition: &Expr,
@@ -70,18 +85,25 @@ impl<'a, 'b> GeneratorState<'a> {
                         let else_label = format!(".else{}", self.local_label_counter_if);
                         self.generate_condition(condition, pos, true, &else_label, false)?;
                         let saved_y = self.saved_y;
+                        let nb_deferred = self.deferred_plusplus.len();
                         let left = self.generate_expr(lhs, pos, false, false)?;
                         let la = self.generate_assign(&ExprType::A(false), &left, pos, false)?;
+                        let settled = self.settle_alternative(nb_deferred)?;
                         let restored = self.restore_y_borrowed_by_alternative(saved_y);
                         self.asm(JMP, &ExprType::Label(ifend_label.clone()), pos, false)?;
                         self.label(&else_label)?;
                         self.acc_in_use = false;
                         let right = self.generate_expr(rhs, pos, false, false)?;
                         let ra = self.generate_assign(&ExprType::A(false), &right, pos, false)?;
+                        let settled = self.settle_alternative(nb_deferred)? || settled;
                         self.restore_y_borrowed_by_alternative(saved_y);
                         self.label(&ifend_label)?;
                         if restored {
                             self.flags = FlagsState::Y;
+                        }
+                        if settled {
+                            // The flags are those of an increment on one of the paths
+                            self.flags = FlagsState::Unknown;
                         }
                         self.asm(STA, &ExprType::Tmp(false), pos, false)?;
                         self.tmp_in_use = true;
@@ -108,9 +130,11 @@ impl<'a, 'b> GeneratorState<'a> {
                             }
                         } else {
                             let saved_y = self.saved_y;
+                            let nb_deferred = self.deferred_plusplus.len();
                             let left = self.generate_expr(lhs, pos, high_byte, high_byte)?;
                             let la =
                                 self.generate_assign(&ExprType::A(false), &left, pos, high_byte)?;
+                            let settled = self.settle_alternative(nb_deferred)?;
                             let restored = self.restore_y_borrowed_by_alternative(saved_y);
                             self.asm(JMP, &ExprType::Label(ifend_label.clone()), pos, false)?;
                             self.label(&else_label)?;
@@ -118,10 +142,15 @@ impl<'a, 'b> GeneratorState<'a> {
                             let right = self.generate_expr(rhs, pos, high_byte, high_byte)?;
                             let ra =
                                 self.generate_assign(&ExprType::A(false), &right, pos, high_byte)?;
+                            let settled = self.settle_alternative(nb_deferred)? || settled;
                             self.restore_y_borrowed_by_alternative(saved_y);
                             self.label(&ifend_label)?;
                             if restored {
                                 self.flags = FlagsState::Y;
+                            }
+                            if settled {
+                                // The flags are those of an increment on one of the paths
+                                self.flags = FlagsState::Unknown;
                             }
                             self.acc_in_use = true;
                             if la != ra {
